@@ -1233,6 +1233,11 @@ def check(ctx: Ctx):
     _render.check_real_harmonics(ctx)
     check_triangulation(ctx)
     check_shape(ctx)
+    from ..rules import support
+
+    support.check_scalar_wrapper(ctx)
+    support.check_elementwise_shape_methods(ctx)
+    ctx.expect("WRAP", 1)
     ctx.expect("SHAPE", 8)
     ctx.expect("TRIANG", 3)
     ctx.expect("ACCUM", 7)
